@@ -16,6 +16,8 @@ FAMILY_VARIANTS = {
     "order_rows": ALLV + POLV,
     "conflict_ortho": ALLV + POLV,
     "completion_chain": ALLV + POLV,
+    "conflict_flat": ALLV + ["B11+p1", "B11+p2", "B11+p3"],
+    "history_always": ALLV + ["B11+p1", "B11+p3"],
     "kleene_defer": ["B", "B11", "M"],       # Kleene triggers: run-time-speed policies with flat_fold dispatch (C18 quantifier)
     "exit_points_plain": ALLV + ["B11", "B11+p1", "B11+p2", "B11+p3", "B+p1", "B+p3", "M+p2", "M+p3"],
     "flags": ALLV + ["B+p3", "M+p3"],
@@ -30,11 +32,11 @@ FAMILY_VARIANTS = {
 # exit-point rows with action+guard): the families it compiles -- "back11 where it accepts the same declarations"
 B11_FAMS = ["ids_mixed_none", "ids_mixed_always", "ids_mixed_shallow", "conflict_flat", "nest_inactive", "queue_flat", "queue_nested", "defer_basic", "defer_action", "completion_chain",
             "blocking", "flags", "storage", "fork_entry", "history_none", "history_always", "history_shallow", "serial_nested",
-            "fe_player", "fe_conflict", "exit_points_plain"]
+            "fe_player", "fe_conflict", "exit_points_plain", "defer_queue_first"]
 
 
 # back with queue_container_circular (capacity 256 set by the adapter, "sufficient" for every plan)
-BQ_FAMS = ["queue_flat", "queue_nested", "defer_basic", "storage", "nest2_mixed", "completion_chain"]
+BQ_FAMS = ["queue_flat", "queue_nested", "defer_basic", "storage", "nest2_mixed", "completion_chain", "defer_queue_first"]
 
 
 def variants_of(family):
@@ -91,7 +93,11 @@ PROPS = {
     "C02": {
         "jobs": jobs(["order_rows", "nest2_mixed", "nest3", "fork_entry", "history_always", "ids_mixed_none", "ids_mixed_always"],
                      ["plain", "lifecycle"], 800, 40000, variants=ALLV)
-                + rand_jobs("struct", ["lifecycle"], 600, 8000) + rand_jobs("hist", ["plain"], 0, 6000) + rand_jobs("pseudo", ["lifecycle"], 0, 6000),
+                + rand_jobs("struct", ["lifecycle"], 600, 8000) + rand_jobs("hist", ["plain"], 0, 6000) + rand_jobs("pseudo", ["lifecycle"], 0, 6000)
+                # "a rejected guard causes no state change at all" under the other switch policies, back11 included (third seeded defect C02)
+                + jobs(["conflict_flat"], ["plain", "lifecycle"], 500, 20000, variants=["B11+p1", "B11+p2", "B11+p3"])
+                + jobs(["history_always"], ["plain"], 400, 20000, variants=["B11+p1", "B11+p3"])
+                + jobs(["order_rows", "nest2_mixed"], ["plain"], 400, 20000, variants=POLV),
         "nontrivial": ["transition"],
         "rule": "plans of events and stop/start cycles; lockstep compares every exit / action / entry record (order, event, state) and the "
                 "configuration after each op; non-trivial = at least one external transition was taken; distinct = full-trace hash",
@@ -115,6 +121,9 @@ PROPS = {
                 + jobs(["nest2_mixed", "queue_nested"], ["reentrant"], 300, 3000, variants=["B", "M"])
                 # "... from exception_caught": submissions made by exception_caught need the throws profile (second seeded defect C04)
                 + jobs(["queue_flat", "nest2_mixed", "order_rows"], ["throws"], 600, 30000, variants=ALLV)
+                # the back / back11 option event_queue_before_deferred_queue (third seeded defect C04)
+                + jobs(["defer_queue_first"], ["queue", "defer", "posts"], 600, 30000, variants=ALLV)
+                + jobs(["queue_nested", "nest2_mixed"], ["long"], 40, 2000, variants=["B", "BC", "M", "MC"])
                 + rand_jobs("struct", ["queue"], 600, 8000) + rand_jobs("compl", ["queue"], 0, 6000),
         "nontrivial": ["post"],
         "rule": "plans with 0-3 re-entrant submissions per op from arbitrary callback positions (guard, exit, action, entry, no_transition, "
@@ -127,7 +136,11 @@ PROPS = {
                 + jobs(["defer_cond"], ["defer", "plain", "queue"], 1500, 60000)
                 + rand_jobs("dfb", ["defer", "queue"], 600, 8000, nthorough=12) + rand_jobs("dfm", ["defer", "queue"], 600, 8000, nthorough=12)
                 + rand_jobs("sto", ["defer"], 0, 6000, nthorough=8)
-                + jobs(["kleene_defer"], ["defer", "queue"], 800, 30000),
+                + jobs(["kleene_defer"], ["defer", "queue"], 800, 30000)
+                + jobs(["defer_queue_first"], ["defer", "queue"], 800, 30000, variants=ALLV)
+                # long-lived machines: hundreds of ops per run (the deferred-queue sequence counter wraps; third seeded defect C05)
+                + jobs(["defer_basic", "defer_queue_first", "defer_action"], ["long"], 60, 3000, variants=["B", "BC", "B11", "M", "MC"])
+                + jobs(["defer_cond"], ["long"], 40, 2000, variants=["M", "MC"]),
         "nontrivial": ["deferred"],
         "rule": "event sequences over machines with deferring states / Defer actions, public defer_event, posts with the defer API; "
                 "non-trivial = a deferred occurrence was observed pending at a quiescent point; distinct = full-trace hash",
@@ -285,7 +298,9 @@ PROPS = {
                 + [job(f, "common", 800, 30000, variants=["M", "M+p1", "M+p2", "M+p3"], mode="diff:policy") for f in ["nest2_mixed", "order_rows", "conflict_ortho"]]
                 # back11 and rows leaving exit points under the policies (second seeded defect C19)
                 + jobs(["exit_points_plain"], ["plain", "posts"], 500, 20000, variants=["B11+p1", "B11+p2", "B11+p3", "B+p1", "B+p3", "M+p2", "M+p3"])
-                + [job("exit_points_plain", "plain", 800, 30000, variants=["B11", "B11+p1", "B11+p2", "B11+p3"], mode="diff:policy")],
+                + [job("exit_points_plain", "plain", 800, 30000, variants=["B11", "B11+p1", "B11+p2", "B11+p3"], mode="diff:policy")]
+                + jobs(["conflict_flat"], ["plain", "posts"], 500, 20000, variants=["B11+p1", "B11+p2", "B11+p3"])
+                + [job("conflict_flat", "common", 800, 30000, variants=["B11", "B11+p1", "B11+p2", "B11+p3"], mode="diff:policy")],
         "nontrivial": ["transition"],
         "rule": "every behaviour records the active state ids its fsm argument reports at that instant; lockstep against the policy table "
                 "of the model for the three non-default policies; differential: with that field blanked the four policies give identical traces",
